@@ -21,6 +21,9 @@ type EntryContext struct {
 	// internal error when sentinel Entry or
 	// biz error of downstream
 	err error
+	// statNotified is true once the statistic slots have been told the outcome of
+	// the rule checking (OnEntryPassed / OnEntryBlocked) for this entry.
+	statNotified bool
 	// Use to calculate RT
 	startTime uint64
 	// the rt of this transaction
@@ -118,6 +121,7 @@ func (ctx *EntryContext) Reset() {
 	// reset all fields of ctx
 	ctx.entry = nil
 	ctx.err = nil
+	ctx.statNotified = false
 	ctx.startTime = 0
 	ctx.rt = 0
 	ctx.Resource = nil
